@@ -121,6 +121,15 @@ def structured_cases(rng: random.Random, n: int):
                 o = _ordering_for(rng, e, nn)
                 out.append({"kind": "idem", "e": e, "ordering": o, "gen": lab})
                 out.append({"kind": "perm", "e": e, "e2": GE.present_shuffle(rng, e), "ordering": o, "gen": lab})
+    # systematic: products of sibling factors that differ in one deep position (ties of any key that ignores it)
+    for fam in GE.SIBLING_FAMILIES:
+        for _ in range(max(1, n // 130)):
+            nn = rng.choice([3, 4, 4, 5])
+            e, lab = GE.struct_product(rng, nn, family=fam)
+            o = _ordering_for(rng, e, nn)
+            out.append({"kind": "perm", "e": e, "e2": GE.present_shuffle(rng, e), "ordering": o, "gen": lab})
+            if rng.random() < 0.3:
+                out.append({"kind": "idem", "e": e, "ordering": o, "gen": lab})
     while len(out) < n:
         e, nn, lab = _struct(rng)
         o = _ordering_for(rng, e, nn)
@@ -188,7 +197,10 @@ def _interesting(enc):
 
 
 def _feat_tags(case):
-    t = {"gen": case.get("gen", "random").split(":")[0]}
+    g = case.get("gen", "random").split(":")
+    t = {"gen": g[0]}
+    if len(g) > 1 and g[1].startswith("composite-"):
+        t["sibling_family"] = g[1][len("composite-"):]
     for f in GE.features(case["e"], case["ordering"]):
         t["hit_" + f] = True
     return t
